@@ -967,6 +967,7 @@ class Config:  # pylint: disable=too-many-instance-attributes
         self._fields: Dict[str, BaseField] = OrderedDict()
         self._key = schema._key
         self.__keyfile = None  # type: Optional[KeyFile]
+        self.__default_keyfile = None  # type: Optional[KeyFile]
         self._default_value_keys: Set[str] = set()
 
         if key_filename:
@@ -1009,13 +1010,16 @@ class Config:  # pylint: disable=too-many-instance-attributes
         """
         :returns: the config's encryption key file (if not set, get the parent config's key file)
         """
-        if not self.__keyfile:
-            if self._parent:
-                # This will bubble up to the root config
-                self.__keyfile = self._parent._keyfile
-            else:
-                self.__keyfile = KeyFile(Config.DEFAULT_CINCOKEY_FILEPATH)
-        return self.__keyfile
+        if self.__keyfile:
+            return self.__keyfile
+        if self._parent:
+            # This will bubble up to the root config. The result is not stored: the key file is
+            # looked up again on every use so that a later change of an ancestor's key file, or a
+            # new parent, takes effect.
+            return self._parent._keyfile
+        if self.__default_keyfile is None:
+            self.__default_keyfile = KeyFile(Config.DEFAULT_CINCOKEY_FILEPATH)
+        return self.__default_keyfile
 
     def _get_field(self, key: str) -> Optional[BaseField]:
         """
